@@ -27,16 +27,16 @@ def components (p : Str) : List Comp :=
     else some (Comp.normal x)
   if abs then Comp.root :: body else body
 
-/-- the buffer of `cleaned`, as a stack of components -/
-def popStack (st : List Comp) : List Comp :=
-  match st.getLast? with
-  | some Comp.root => st
-  | _ => st.dropLast
-
+/-- one step of `cleaned` on the buffer, as a stack of components (after the D17 repair):
+    ".." removes a preceding name, never climbs above the root, and accumulates otherwise -/
 def cleanStep (st : List Comp) (c : Comp) : List Comp :=
   match c with
   | .cur => st
-  | .parent => if st.length > 0 then popStack st else st ++ [c]
+  | .parent =>
+    match st.getLast? with
+    | some (Comp.normal _) => st.dropLast
+    | some Comp.root => st
+    | _ => st ++ [c]
   | .root => [c]
   | .normal _ => st ++ [c]
 
